@@ -246,6 +246,10 @@ def _get_matching_dir_entries(parent_dir, auth_set, st_mode_test=None, ext=""):
     if auth_set.auth_type == AuthSet.WHITE:
         for value in auth_set.values:
             filename = value + ext
+            if os.path.basename(filename) != filename or "\0" in filename:
+                # Not the name of an entry of this directory (and as a path,
+                # it might name one of them a second time).
+                continue
             try:
                 if st_mode_test:
                     s = os.stat(os.path.join(parent_dir, filename))
@@ -256,7 +260,7 @@ def _get_matching_dir_entries(parent_dir, auth_set, st_mode_test=None, ext=""):
                 if type_pass:
                     results.append(filename)
             except OSError as e:
-                if e.errno != errno.ENOENT:
+                if e.errno not in (errno.ENOENT, errno.ENAMETOOLONG):
                     raise
                 # else, file-not-found is ok, just skip
     else:  # auth_set is a blacklist
